@@ -13,6 +13,8 @@ import (
 	"strings"
 	"testing"
 
+	"pgregory.net/rapid"
+
 	"bngverif/internal/vstat"
 )
 
@@ -67,6 +69,22 @@ func (h *hist) fail(t fataler, kind, f string, a ...any) bool {
 }
 
 func (h *hist) fp() uint64 { return vstat.Hash(h.comp, strings.Join(h.history(), ";")) }
+
+// guard turns every action into a no-op once a listed known finding has fired (the state after a violation is
+// undefined), so that the case still completes and is counted with its classes instead of being discarded.
+func guard(dead *bool, actions map[string]func(*rapid.T)) map[string]func(*rapid.T) {
+	out := make(map[string]func(*rapid.T), len(actions))
+	for k, f := range actions {
+		f := f
+		out[k] = func(rt *rapid.T) {
+			if *dead {
+				return
+			}
+			f(rt)
+		}
+	}
+	return out
+}
 
 func okerr(err error) string {
 	if err == nil {
